@@ -285,3 +285,162 @@ def unkfall(ctx):
     # the early return is guarded by has_matched && !invoke
     ctx.assume("UNKFALL tracks only the has_matched flag; invoke/group/length arithmetic is not "
                "decided")
+
+
+def unkgroup(ctx):
+    """UNKGROUP (C03): in gen_unk_words the prefix loop skips the prefix whose length equals the
+    run length exactly when the category has group=1 - whether or not the grouped candidate was
+    emitted (an over-long run is omitted altogether; it must not come back as a prefix), and
+    never for a group=0 category.
+
+    Decided path-sensitively over two booleans: the outcome of CharInfo::group() and the value
+    of the flag the loop tests. Both spellings are accepted: a flag local, or a direct test of
+    group() inside the loop."""
+    from r_panic import root_of
+    crate = ctx.facts("A").lib
+    E = Effects(crate)
+    fa = E.fa(P_UNK)
+    S = Sym(E, fa)
+    loc = fn_loc(crate, P_UNK)
+    # the prefix loop: a next() call whose Some-arm reaches a scan_entries call
+    scans = [(b, t) for b, t in calls_named(fa, "scan_entries")]
+    ctx.floor("UNKGROUP", "scan_entries call sites", len(scans), 3)
+    heads = []
+    for nb, nt in fa.calls():
+        if any(strip_generics(x).endswith("::next") for x in callee_paths(nt)):
+            some_t, none_t = loop_parts(fa, nb)
+            body = fa.reachable(some_t, avoid={nb})
+            inloop = [b for b, t in scans if b in body and nb in fa.reachable(b)]
+            if inloop:
+                heads.append((nb, some_t, inloop))
+    if len(heads) != 1:
+        raise EngineError("UNKGROUP: expected one prefix loop in gen_unk_words, found %d" % len(heads))
+    H, some_t, inloop = heads[0]
+    P = inloop[0]
+    body = fa.reachable(some_t, avoid={H})
+    # group() calls
+    gcalls = [b for b, t in calls_named(fa, "group")
+              if any(strip_generics(x).endswith("CharInfo::group") for x in callee_paths(t))]
+    if not gcalls:
+        raise EngineError("UNKGROUP: no CharInfo::group() call in gen_unk_words")
+    # the `continue` test: a switch in the body on Eq(x, y) one of whose edges returns to the
+    # loop head without passing the prefix scan
+    conts = []
+    for b in sorted(body):
+        t = fa.term(b)
+        if t["k"] != "switch":
+            continue
+        r = root_of(fa, t["op"])
+        if r[0] == "rv" and r[1]["k"] == "binop" and r[1]["op"] in ("Eq", "Ne"):
+            f_t, t_t = bool_switch_targets(t)
+            eq_t = t_t if r[1]["op"] == "Eq" else f_t
+            if P not in fa.reachable(eq_t, avoid={H}):
+                conts.append((b, eq_t, r[1]))
+    ctx.ob("UNKGROUP", "run-length-prefix-skip-present", len(conts) == 1, loc,
+           "the prefix loop skips one length by an equality test (prefix length == run length)"
+           if len(conts) == 1 else
+           "the prefix loop has %d `length == run` skip tests (expected 1): with group=1 the "
+           "run-length candidate is produced twice or a wrong length is dropped" % len(conts))
+    if len(conts) != 1:
+        return
+    Q, _, eq = conts[0]
+    # operands of the equality: the loop variable and the run length (Sentence::groupable)
+    ea, eb = S.operand(eq["a"]), S.operand(eq["b"])
+    txt = "%s == %s" % (show(ea), show(eb))
+    has_run = "groupable" in txt
+    ctx.ob("UNKGROUP", "skip-compares-with-run-length", has_run, fa.loc(Q),
+           "the skipped length is the run length: %s" % txt if has_run else
+           "the skip test %s does not compare with Sentence::groupable(start)" % txt)
+    # conditions under which Q is reached inside the body
+    guards = []
+    for b in sorted(body):
+        t = fa.term(b)
+        if b == Q or t["k"] != "switch" or not fa.dominates(b, Q):
+            continue
+        if b == fa.term(H).get("t"):
+            continue          # the Some/None switch of the iterator
+        # which edge leads to Q
+        f_t, t_t = bool_switch_targets(t)
+        to_q_true = Q in fa.reachable(t_t, avoid={H}) and Q not in fa.reachable(f_t, avoid={H})
+        to_q_false = Q in fa.reachable(f_t, avoid={H}) and Q not in fa.reachable(t_t, avoid={H})
+        if not (to_q_true or to_q_false):
+            continue
+        guards.append((b, to_q_true))
+    if not guards:
+        ctx.ob("UNKGROUP", "skip-only-for-group=1", False, fa.loc(Q),
+               "the run-length prefix is skipped unconditionally: a group=0 category loses the "
+               "prefix whose length equals the run")
+        return
+    if len(guards) > 1:
+        raise EngineError("UNKGROUP: more than one condition guards the skip test at %s" % fa.loc(Q))
+    gb, pol = guards[0]
+    r = root_of(fa, fa.term(gb)["op"])
+    neg = False
+    if r[0] == "rv" and r[1]["k"] == "unop" and r[1]["op"] == "Not":
+        r = root_of(fa, r[1]["a"])
+        neg = True
+    want_true = pol != neg       # flag value under which the skip test is reached
+    if r[0] == "call" and any(strip_generics(x).endswith("CharInfo::group") for x in callee_paths(r[2])):
+        ctx.ob("UNKGROUP", "skip-only-for-group=1", want_true, fa.loc(gb),
+               "the skip is guarded by CharInfo::group() itself" if want_true else
+               "the skip is taken when group() is false")
+        return
+    if r[0] != "local":
+        raise EngineError("UNKGROUP: the guard of the skip test at %s is neither a flag nor group()"
+                          % fa.loc(gb))
+    L = r[1]
+    # path-sensitive pass from the entry to the loop head: (block, flag value, group outcome)
+    gsw = {}
+    for g in gcalls:
+        sw = fa.term(g).get("t")
+        st = fa.term(sw) if sw is not None else None
+        if st is None or st["k"] != "switch":
+            raise EngineError("UNKGROUP: the result of group() at %s is not branched on" % fa.loc(g))
+        rr = root_of(fa, st["op"])
+        ng = rr[0] == "rv" and rr[1]["k"] == "unop" and rr[1]["op"] == "Not"
+        f_t, t_t = bool_switch_targets(st)
+        gsw[sw] = (f_t, t_t) if not ng else (t_t, f_t)
+    start = (0, "?", "?")
+    seen = {start}
+    work = [start]
+    arrivals = set()
+    n = 0
+    while work:
+        b, lv, gv = work.pop()
+        n += 1
+        for s in fa.blocks[b]["stmts"]:
+            if "lhs" in s and s["lhs"]["l"] == L and not s["lhs"]["p"]:
+                k = op_const(s["rv"]["op"]) if s["rv"]["k"] == "use" else None
+                lv = "T" if (k and k.get("int") == 1) else "F" if (k and k.get("int") == 0) else "?"
+        if b == H:
+            arrivals.add((lv, gv))
+            continue
+        if b in gsw:
+            f_t, t_t = gsw[b]
+            nxt = [(f_t, lv, "F"), (t_t, lv, "T")]
+        else:
+            nxt = [(x, lv, gv) for x in fa.succs(b)]
+        for st_ in nxt:
+            if st_ not in seen and not fa.blocks[st_[0]].get("cleanup"):
+                seen.add(st_)
+                work.append(st_)
+    ctx.count("UNKGROUP", "path states explored", n)
+    if not arrivals:
+        raise EngineError("UNKGROUP: the prefix loop is not reachable from the entry")
+    wantT = "T" if want_true else "F"
+    wantF = "F" if want_true else "T"
+    bad1 = [(lv, gv) for lv, gv in arrivals if gv == "T" and lv != wantT]
+    bad0 = [(lv, gv) for lv, gv in arrivals if gv == "F" and lv != wantF]
+    unk = [(lv, gv) for lv, gv in arrivals if gv == "?"]
+    name = fa.fn.local_names().get(L, "_%d" % L)
+    ctx.ob("UNKGROUP", "skip-whenever-group=1", not bad1 and not unk, fa.loc(gb),
+           "on every path with group()=true the flag `%s` is set when the prefix loop starts, "
+           "whether or not the grouped candidate was emitted" % name if not bad1 and not unk else
+           "there is a path with group()=true on which the flag `%s` is not set when the prefix "
+           "loop starts (e.g. when the run exceeds max_grouping_len+1): the omitted over-long "
+           "run comes back as a prefix of the same length" % name)
+    ctx.ob("UNKGROUP", "skip-only-for-group=1", not bad0, fa.loc(gb),
+           "with group()=false the flag `%s` stays clear: the run-length prefix is kept" % name
+           if not bad0 else
+           "the flag `%s` can be set on a path with group()=false: a group=0 category loses "
+           "the prefix whose length equals the run" % name)
